@@ -162,6 +162,8 @@ def check_case(case, ctx):
         if cum == 0:
             ctx.count('exception_on_empty_prefix')
             ctx.note('exceptions_on_empty_prefix', '%s: %s' % (label, type(err).__name__))
+            ctx.violate('exception-before-any-row@%s' % label, '%s -> batch %d (nothing but empty batches so far) raised %r; '
+                        'pandas computes this on an empty frame' % (head, k + 1, err), case)
         else:
             raised = True
             ctx.violate('exception@%s:%s' % (label, cls), '%s -> batch %d raised %r although rows have been seen'
